@@ -178,30 +178,12 @@ func (a *ipG2) g8CRLFFollows(w ssa.CallInstruction) bool {
 
 // ---- C09-delims: Mid first, and not again -----------------------------------------------------------
 
-// g8FirstWrite: the Fprintf of hw that is executed before every other one (it dominates them);
-// nil when there is no such call.
-func g8FirstWrite(hw *ssa.Function) ssa.CallInstruction {
-	calls := callsTo(hw, false, "fmt.Fprintf")
-	for _, f := range calls {
-		first := true
-		for _, o := range calls {
-			if o != f && !instrDominates(f, o) {
-				first = false
-			}
-		}
-		if first {
-			return f
-		}
-	}
-	return nil
-}
-
 // g8MidExcluded: the keys of the header lines written after the Mid line cannot be Mid. The key
 // of every other Fprintf of hw is traced back to the appends that collect it - in hw or in a
 // same-package function whose result it is -; at least one such append exists and each of them
 // is guarded by the false edge of strings.EqualFold(<the key appended>, "Mid") (read through
 // same-package predicates).
-func g8MidExcluded(c *Ctx, hw *ssa.Function, pkg string) bool {
+func g8MidExcluded(c *Ctx, hw *ssa.Function, pkg string, lines []*j5Line, first *j5Line) bool {
 	ip := newIPG2(c, pkg)
 	var appends []*ssa.Call
 	for _, g := range ip.closure(hw) {
@@ -215,20 +197,27 @@ func g8MidExcluded(c *Ctx, hw *ssa.Function, pkg string) bool {
 			}
 		}
 	}
-	lines := 0
-	for _, ci := range callsTo(hw, false, "fmt.Fprintf") {
-		if s, _ := constString(ci.Common().Args[1]); strings.HasPrefix(s, "Mid: ") {
+	// the lines of hw, wherever below it they are written, with the key bound per call site (ip_j4.go)
+	n := 0
+	for _, l := range lines {
+		if strings.HasPrefix(strings.ToLower(l.format), "mid:") {
+			if l != first {
+				return false // a second Mid line
+			}
 			continue
 		}
-		if isNilConst(ci.Common().Args[2]) {
+		if l.noArgs {
 			continue // a constant line: no key
 		}
-		args, ok := variadicArgs(ci.Common().Args[2])
-		if !ok || len(args) == 0 {
+		if l.folded {
+			n++ // another constant key: not Mid
+			continue
+		}
+		if l.badArgs || l.key == nil {
 			return false
 		}
-		lines++
-		key := unwrap(args[0])
+		n++
+		ci, key := l.site, l.key
 		if j4KeyNotMid(ip, ci, key) {
 			continue // the line itself is written on the unequal edge of the Mid test of its key (ip_j4.go)
 		}
@@ -274,7 +263,7 @@ func g8MidExcluded(c *Ctx, hw *ssa.Function, pkg string) bool {
 			return false
 		}
 	}
-	return lines > 0
+	return n > 0
 }
 
 // ---- C11-atomic: nil reasoning over an error variable that lives in memory ---------------------------
